@@ -70,6 +70,50 @@ impl<'a> Para<'a> {
     }
 }
 
+/// Does `text` contain a line break that is not the configured line ending (a
+/// bare LF in CRLF mode, a CR directly before an LF in LF mode)? The statements
+/// speak of "line-ending-separated paragraphs" without saying whether such a
+/// break also separates paragraphs, so both readings are admitted.
+pub fn has_stray_breaks(text: &str, le: &str) -> bool {
+    if le == "\r\n" {
+        let b = text.as_bytes();
+        (0..b.len()).any(|i| b[i] == b'\n' && (i == 0 || b[i - 1] != b'\r'))
+    } else {
+        text.contains("\r\n")
+    }
+}
+
+/// Paragraphs of `text`: split at the configured ending, or (`universal`) at
+/// every LF with one CR directly before it counted as part of the ending.
+pub fn split_paragraphs<'a>(text: &'a str, le: &str, universal: bool) -> Vec<&'a str> {
+    if !universal {
+        return text.split(le).collect();
+    }
+    let mut v: Vec<&str> = text.split('\n').collect();
+    let n = v.len();
+    for p in v.iter_mut().take(n - 1) {
+        if let Some(s) = p.strip_suffix('\r') {
+            *p = s;
+        }
+    }
+    v
+}
+
+/// Run a text-level check under the configured-ending reading of "paragraph"
+/// and, if that reports a violation on a text with stray line breaks, under the
+/// universal reading; only a violation under both readings is reported.
+pub fn either_reading(text: &str, le: &str, obs: &mut crate::run::Obs, mut f: impl FnMut(bool, &mut crate::run::Obs) -> crate::run::Verdict) -> crate::run::Verdict {
+    let v = f(false, obs);
+    if matches!(v, crate::run::Verdict::Violated(_)) && has_stray_breaks(text, le) {
+        let v2 = f(true, obs);
+        if !matches!(v2, crate::run::Verdict::Violated(_)) {
+            obs.bump("universal_newline_reading_admitted");
+            return v2;
+        }
+    }
+    v
+}
+
 /// Line widths for paragraph number `p` of the text given how many lines have
 /// been emitted before it: only the first line of the whole text carries the
 /// initial indent.
